@@ -291,8 +291,15 @@ def c16(ctx):
 
 @handler("C08")
 def c08(ctx):
+    def after(ctx, files):
+        # design level: the cleanup goroutine (ticker, one DeleteExpired pass per tick, stop) keeps the two bounds
+        # ExpCache.tla grants it: only expired entries go, and none is left once more than one interval has
+        # passed since its deadline; "at least one interval" is too early (negative control)
+        ctx.model_check("Janitor", "Janitor.cfg", workers=4)
+        ctx.model_check("Janitor", "Janitor_6.cfg", workers=4)
+        ctx.model_check("Janitor", "Janitor_early.cfg", expect_violation="MustEarly")
     return seq_container(ctx, "expcache", "ExpCacheTrace", [("ExpCacheMC", "ExpCacheMC.cfg")],
-                         depth=dict(quick=3, thorough=4), shards=12, prepare=prepare_vtime, procs=True)
+                         depth=dict(quick=3, thorough=4), shards=12, prepare=prepare_vtime, procs=True, after=after)
 
 
 @handler("C20")
